@@ -121,6 +121,19 @@ func min64(a, b int64) int64 {
 // nanosecond precision, UTC or a fixed zone with a whole-minute offset within
 // +-23:59, no monotonic reading.
 func Time(t *rapid.T, label string) time.Time {
+	// Landmark instants: the zero time (in UTC and written in another zone),
+	// the Unix epoch, the last representable nanosecond.
+	if rapid.IntRange(0, 11).Draw(t, label+"-landmark") == 0 {
+		return rapid.SampledFrom([]time.Time{
+			{},
+			time.Time{}.In(time.FixedZone("", 330*60)),
+			time.Unix(0, 0).UTC(),
+			time.Unix(0, 0).In(time.FixedZone("", -60*60)),
+			time.Date(9999, 12, 31, 23, 59, 59, 999999999, time.UTC),
+			time.Date(1, 1, 1, 0, 0, 0, 1, time.UTC),
+		}).Draw(t, label+"-landmark-instant")
+	}
+
 	year := rapid.SampledFrom([]int{1, 2, 1969, 1970, 1999, 2000, 2024, 9998, 9999}).Draw(t, label+"-y")
 	if rapid.Bool().Draw(t, label+"-anyyear") {
 		year = rapid.IntRange(1, 9999).Draw(t, label+"-year")
